@@ -707,6 +707,25 @@ func observe(dir string, c cfgT, snap bool, full bool) (o *obsT) {
 		}
 	}
 	{
+		o.Blk = map[int][]smp{}
+		for _, b := range db.Blocks() {
+			q, err := tsdb.NewBlockQuerier(b, math.MinInt64, math.MaxInt64)
+			if err != nil {
+				o.Err = "block querier: " + err.Error()
+				return o
+			}
+			a, err := selectAll(q)
+			q.Close()
+			if err != nil {
+				o.Err = "block query: " + err.Error()
+				return o
+			}
+			for l, ss := range a {
+				o.Blk[l] = append(o.Blk[l], ss...)
+			}
+		}
+	}
+	{
 		mv := db.Head().VerifMinValidTime()
 		o.HS = answer{}
 		for _, s := range db.Head().VerifDump() {
@@ -726,9 +745,19 @@ func observe(dir string, c cfgT, snap bool, full bool) (o *obsT) {
 					}
 				}
 			}
+			// out-of-order samples that are already in a block are left out: after an OOO
+			// compaction the m-mapped OOO chunk stays in chunks_head and a WAL restart attaches it
+			// again to a series re-created from its series record (C01 finding
+			// restart-reloads-compacted-ooo-chunk), a snapshot restart does not
+			inBlk := map[smp]bool{}
+			for _, x := range o.Blk[l] {
+				inBlk[x] = true
+			}
 			for _, ch := range s.OOO {
 				for _, x := range ch.Samples {
-					add(smp{x.T, int64(x.V)})
+					if y := (smp{x.T, int64(x.V)}); !inBlk[y] {
+						add(y)
+					}
 				}
 			}
 			sort.Slice(ss, func(i, j int) bool {
@@ -767,23 +796,6 @@ func observe(dir string, c cfgT, snap bool, full bool) (o *obsT) {
 				for _, x := range ch.Samples {
 					o.OOO[l] = append(o.OOO[l], smp{x.T, int64(x.V)})
 				}
-			}
-		}
-		o.Blk = map[int][]smp{}
-		for _, b := range db.Blocks() {
-			q, err := tsdb.NewBlockQuerier(b, math.MinInt64, math.MaxInt64)
-			if err != nil {
-				o.Err = "block querier: " + err.Error()
-				return o
-			}
-			a, err := selectAll(q)
-			q.Close()
-			if err != nil {
-				o.Err = "block query: " + err.Error()
-				return o
-			}
-			for l, ss := range a {
-				o.Blk[l] = append(o.Blk[l], ss...)
 			}
 		}
 	}
@@ -1352,6 +1364,17 @@ func main() {
 		flag(ob != nil && len(ob.OOO) > 0, "ooo-head-data")
 		flag(ob != nil && len(ob.Blk) > 0, "blocks")
 		flag(len(dmp.Chunks) > 0, "mmapped-chunks")
+		onMV := false
+		if ob != nil {
+			for _, cs := range dmp.Chunks {
+				for _, c := range cs {
+					if len(c) > 0 && c[len(c)-1].T == ob.MV {
+						onMV = true
+					}
+				}
+			}
+		}
+		flag(onMV, "mmapped-chunk-ending-at-minValidTime")
 		flag(oa != nil && oa.OOOOnlyMmapped, "ooo-only-series-with-mmapped-chunk")
 		flag(oa != nil && oa.NoHeadChunk, "series-without-head-chunk")
 		nsamp := 0
